@@ -566,7 +566,11 @@ def static_locals(F, functions=None):
                     t = fn.term(d["init"])
                     inst = "%s#static:%s" % (fn.qn, d["n"])
                     req = "a function-local static is initialised from constants only (it keeps its first value for the life of the process)"
-                    if runtime(t):
+                    if not d.get("is_const"):
+                        out.append(bad("R-INIT", inst, fn.loc(nd["id"]), fn.qn,
+                                       "a function-local static is a constant (a mutable one is state shared by every call of the function)",
+                                       "`static %s` is not const: what one call leaves in it is seen by the next (a failed or earlier call changes later results)" % d["n"]))
+                    elif runtime(t):
                         out.append(bad("R-INIT", inst, fn.loc(nd["id"]), fn.qn, req, "`static %s` is initialised from %s: every later call reuses the first call's value" % (d["n"], fmt_term(t))))
                     else:
                         out.append(ok("R-INIT", inst, fn.loc(nd["id"]), fn.qn, req, fmt_term(t), nontrivial=False))
@@ -575,6 +579,8 @@ def static_locals(F, functions=None):
 
 def check(F, run, tier):
     S = Summaries(F)
+    from ..rules_archive import cstring_obligations
+    cstring_obligations(F, S, run)
     run.declined = DECLINED
     run.explanation = (
         "Field-sensitive definite-initialisation analysis (R-INIT) over the seven serialisation paths and the parsers: every "
